@@ -1,4 +1,4 @@
 INIT Init
 NEXT Next
-INVARIANTS C18_nf C18_pick C18_suit C18_picksuit C18_new C15_new
+INVARIANTS C18_nf C18_pick C18_suit C18_picksuit C18_new C15_new C15_newfault
 CHECK_DEADLOCK FALSE
